@@ -74,14 +74,27 @@ def _stmt(name, hi_term=None):
     if name == "SUM_SCALE":
         body = z3.Implies(z3.ForAll([i], z3.Implies(z3.And(i >= lo, i < h), C[i] == c * A[i])), SUM(C, lo, h) == c * SUM(A, lo, h))
         return [A, C, c, lo], hi, body, [z3.MultiPattern(SUM(C, lo, h), SUM(A, lo, h))]
+    if name == "MINMAX_EXT":
+        # pointwise equal arrays have equal minimum and maximum (proved from the defining axioms of MINF/MAXF, no induction)
+        body = z3.Implies(z3.And(h >= 1, z3.ForAll([i], z3.Implies(z3.And(i >= 0, i < h), A[i] == B[i]))),
+                          z3.And(MINF(A, h) == MINF(B, h), MAXF(A, h) == MAXF(B, h)))
+        return [A, B], hi, body, None
+    if name == "ARR_MONO":
+        # adjacent strict increase implies pairwise strict increase on [lo, h)
+        j = z3.Int("lj")
+        adj = z3.ForAll([i], z3.Implies(z3.And(i >= lo, i < h - 1), A[i] < A[i + 1]))
+        pair = z3.ForAll([i, j], z3.Implies(z3.And(i >= lo, i < j, j < h), A[i] < A[j]))
+        return [A, lo], hi, z3.Implies(adj, pair), None
     raise EngineError(f"unknown SUM lemma {name}")
 
 
-SUM_LEMMAS = ["SUM_NONNEG", "SUM_POS", "SUM_CONG", "SUM_SPLIT", "SUM_SHIFT", "SUM_LIN", "SUM_CONST", "SUM_SCALE"]
+SUM_LEMMAS = ["SUM_NONNEG", "SUM_POS", "SUM_CONG", "SUM_SPLIT", "SUM_SHIFT", "SUM_LIN", "SUM_CONST", "SUM_SCALE", "ARR_MONO", "MINMAX_EXT"]
 
 
 def sum_lemma_axiom(name):
     vs, hi, body, pats = _stmt(name)
+    if pats is None:
+        return z3.ForAll(vs + [hi], body)
     try:
         return z3.ForAll(vs + [hi], body, patterns=pats)
     except z3.Z3Exception:
@@ -91,6 +104,12 @@ def sum_lemma_axiom(name):
 def sum_lemma_obligations(name):
     """strong induction on hi:  (forall h < hi0 . Stmt(h))  =>  Stmt(hi0)   for arbitrary fixed other variables"""
     vs, hi, body, pats = _stmt(name)
+    if name == "MINMAX_EXT":
+        A, B = vs
+        ax = []
+        for X in (A, B):
+            ax += extreme_axioms(X, hi, True) + extreme_axioms(X, hi, False)
+        return [Obligation(f"lemma::{name}::from-definitions", ax, body, "lemma", "", func="lemma", clause=name)]
     # well-founded: the induction hypothesis is available only for base <= h < hi0 (base = lo, or 0 for SUM_SHIFT),
     # so the measure hi0 - base is a natural number whenever the hypothesis is used
     base = z3.IntVal(0) if name == "SUM_SHIFT" else z3.Int("llo")
